@@ -7,6 +7,7 @@
 #include <stdio.h>
 #include <stdlib.h>
 #include <sys/mman.h>
+#include <sys/time.h>
 #include <ucontext.h>
 #include <unistd.h>
 #include <algorithm>
@@ -844,6 +845,23 @@ static void crash_handler(int sig, siginfo_t *si, void *) {
 	_exit(70);
 }
 
+static volatile uint64_t wd_last_steps = 0; static volatile int wd_idle = 0; static volatile uint64_t wd_run_id = 0, wd_last_run = 0;
+static void watchdog_handler(int, siginfo_t *, void *) {
+	Run *r = R;
+	if (!r || !r->active) { wd_idle = 0; return; }
+	if (wd_last_run == wd_run_id && wd_last_steps == r->steps) wd_idle++; else wd_idle = 0;
+	wd_last_run = wd_run_id; wd_last_steps = r->steps;
+	if (wd_idle < 3) return;
+	wd_idle = 0;
+	if (!r->res.v.set) {
+		r->res.v.set = true; r->res.v.cls = "no_progress";
+		r->res.v.msg = "the code under test ran for more than 3 s without reaching any instrumented access (a loop with no shared-memory access that cannot be left)";
+		r->res.v.step = r->steps; r->res.v.task = r->cur; r->res.v.opid = r->tasks[r->cur].opid; r->res.v.opkind = r->tasks[r->cur].opkind;
+	}
+	if (r->cur != 0) { r->cur = 0; setcontext(&r->main_ctx); }
+	if (crash_jb_armed) siglongjmp(crash_jb, 1);
+}
+
 static void install_handlers() {
 	static bool done = false;
 	if (done) return;
@@ -855,6 +873,12 @@ static void install_handlers() {
 	sa.sa_sigaction = crash_handler; sa.sa_flags = SA_SIGINFO | SA_ONSTACK | SA_NODEFER;
 	sigemptyset(&sa.sa_mask);
 	sigaction(SIGSEGV, &sa, nullptr); sigaction(SIGBUS, &sa, nullptr); sigaction(SIGILL, &sa, nullptr); sigaction(SIGFPE, &sa, nullptr);
+	struct sigaction wa; memset(&wa, 0, sizeof wa);
+	wa.sa_sigaction = watchdog_handler; wa.sa_flags = SA_SIGINFO | SA_ONSTACK | SA_NODEFER | SA_RESTART;
+	sigemptyset(&wa.sa_mask);
+	sigaction(SIGALRM, &wa, nullptr);
+	struct itimerval it; it.it_interval.tv_sec = 1; it.it_interval.tv_usec = 0; it.it_value = it.it_interval;
+	setitimer(ITIMER_REAL, &it, nullptr);
 }
 
 static uint64_t hash_plan(const Plan &p) {
@@ -914,6 +938,7 @@ RunResult execute(Engine *e, const Plan &p) {
 	prep_armed = true;
 	if (sigsetjmp(prep_jb, 1) == 0) e->prepare(p);
 	prep_armed = false;
+	wd_run_id++;
 	r.active = true;
 	r.cur = 0;
 	crash_jb_armed = true;
